@@ -249,7 +249,29 @@ def check(run):
                 if any(x.op == 'param' and x.args[0] == 'num_classes' for x in walk_terms(pos[-1] if len(pos) <= 2 else pos[1])):
                     over_class = True
             if over_class and (fn.qual, L.id) not in reported:
+                # a symmetric reduction written as a loop - every use of the class index selects the k-th slice that is ADDED to (multiplied into / max-ed with) an accumulator
+                # carried around the loop - treats all classes alike (up to the order of a floating-point sum)
+                body = [e_ for e_ in L.body_events if e_.term is not None]
+                def uses_index(t_):
+                    return any(y.op == 'elem' and y.extra is L for y in walk_terms(t_, into_mu=False))
+                symmetric = bool(body)
+                for e_ in body:
+                    t_ = e_.term
+                    if not uses_index(t_):
+                        continue
+                    t0 = strip_views(t_)
+                    ok_acc = False
+                    if t0.op in ('iop', 'binop') and t0.args[0] in ('Add', 'Mult'):
+                        for acc, x_ in ((t0.args[1], t0.args[2]), (t0.args[2], t0.args[1])):
+                            a0, x0 = strip_views(acc), strip_views(x_)
+                            if isinstance(a0, T) and a0.op == 'mu' and not uses_index(a0) and isinstance(x0, T) and x0.op == 'sub' and not uses_index(x0.args[0]):
+                                ok_acc = True
+                    if e_.kind in ('inplace', 'call', 'store') and not ok_acc:
+                        symmetric = False
                 reported.add((fn.qual, L.id))
+                if symmetric:
+                    run.ok('R-CLASS', f'{short}: loop over class indices is a symmetric accumulation', fn.loc(L.node), 'the k-th slice is only added to / multiplied into a running total')
+                    continue
                 run.violation('R-CLASS', f'{short}: loop over class indices', fn.loc(L.node), 'a loop enumerates class indices (per-class special treatment is possible)',
                               construct=f'R-CLASS::{fn.qual}::class-loop')
     check_flat_indices(run, A)
